@@ -1,24 +1,28 @@
 --------------------------- MODULE IndexedStoreMC ---------------------------
 EXTENDS IndexedStore
-(* IDs that are prefixes of each other, plus "." and ".." which the task-ID *)
-(* regex ^[-\._\p{L}0-9]+$ accepts.  Orders are byte orders.                 *)
-MCIds5 == <<".", "..", "a", "ab", "b">>
-MCIds4 == <<".", "..", "a", "ab">>
-MCIds3 == <<"a", "ab", "b">>
-MCIdsDot == <<".", "..", "a">>
+(* IDs: the empty string (a prefix of every ID), IDs that are prefixes of   *)
+(* each other, and "." / ".." which the task-ID regex ^[-\._\p{L}0-9]+$      *)
+(* accepts.  Orders are byte orders.                                         *)
+MCIds5 == <<"", ".", "..", "a", "ab">>
+MCIds4 == <<"", ".", "a", "ab">>
+MCIds3 == <<"", "a", "ab">>
 MCVals == <<"x", "y">>
-MCSegs == <<".", "..", "a", "ab", "b", "data", "id", "indexes", "p", "x", "y">>
-(* path.Match(pattern, id) over the five IDs (the driver logs the real table *)
+(* every path segment incl. the values of the unique index u (id \o a, "" for (a,x)) *)
+MCSegs == <<"", ".", "..", "..x", "..y", ".x", ".y", "a", "ab", "abx", "aby", "ay", "b", "bx", "by",
+            "data", "id", "indexes", "p", "u", "x", "y">>
+(* path.Match(pattern, id) over the six IDs (the driver logs the real table *)
 (* and the trace specification asserts it equals this one)                   *)
 MCGlob == [p \in {"a*", "*b", "?", "*", "a", "ab", ".*", "??"} |->
     CASE p = "a*" -> {"a", "ab"}
       [] p = "*b" -> {"ab", "b"}
       [] p = "?"  -> {".", "a", "b"}
-      [] p = "*"  -> {".", "..", "a", "ab", "b"}
+      [] p = "*"  -> {"", ".", "..", "a", "ab", "b"}
       [] p = "a"  -> {"a"}
       [] p = "ab" -> {"ab"}
       [] p = ".*" -> {".", ".."}
       [] p = "??" -> {"..", "ab"}]
-MCGrid == ([idx : {"id", "a"}, pat : {"", "a*", "*b", "?", ".*"}, off : 0..3, lim : {-1, 0, 1, 2, 9}, rev : BOOLEAN])
-MCGridSmall == ([idx : {"id", "a"}, pat : {"", "a*", "?"}, off : 0..2, lim : {-1, 1, 2}, rev : BOOLEAN])
+MCGrid == [idx : {"id", "a", "u"}, pat : {"", "a*", "*b", "?", "*"}, off : 0..3, lim : {-1, 0, 1, 2, 9}, rev : BOOLEAN]
+MCGridSmall == [idx : {"id", "a", "u"}, pat : {"", "a*", "*"}, off : 0..2, lim : {-1, 1, 2}, rev : BOOLEAN]
+MCTxGrid == [idx : {"id", "a", "u"}, pat : {"", "a*"}, off : {0, 1}, lim : {-1, 1}, rev : BOOLEAN]
+MCTxGridTiny == [idx : {"id", "a", "u"}, pat : {""}, off : {0}, lim : {-1}, rev : {FALSE}]
 =============================================================================
